@@ -47,7 +47,7 @@ VARIABLE s
 PeerCode == 4001        \* close code the scripted peer uses
 ErrCode  == 1002        \* WebSocketError.code of the protocol error the peer can provoke
 NotIn    == 99
-Tasks    == {"R", "C", "D", "S"}
+Tasks    == {"R", "C", "D", "S", "B"}
 Mark     == "|"
 
 TmoId(t) == CASE t = "R" -> "tmoR" [] t = "C" -> "tmoC" [] t = "D" -> "tmoD" [] OTHER -> "tmoS"
@@ -73,7 +73,8 @@ Init ==
         tmo |-> [t \in Tasks |-> "none"], after |-> [t \in Tasks |-> "none"],
         res |-> [t \in Tasks |-> <<>>], nrecv |-> 0, cstart |-> NotIn,
         nPeer |-> 0, peerDone |-> FALSE, nDrop |-> 0, nCancel |-> 0,
-        why |-> {}, gotClose |-> FALSE, sc |-> FALSE, cwc |-> FALSE, eo |-> FALSE, bug |-> "none" ]
+        why |-> {}, gotClose |-> FALSE, sc |-> FALSE, cwc |-> FALSE, eo |-> FALSE,
+        bdone |-> FALSE, bcb |-> FALSE, ocan |-> FALSE, berr |-> FALSE, bug |-> "none" ]
 
 (* ------------------------------------------------------------ small helpers *)
 Remove(sq, e) == SelectSeq(sq, LAMBDA x : x # e)
@@ -209,7 +210,8 @@ RMsg(st0, t, m) ==
          RRet([CancelHb(st) EXCEPT !.closing = TRUE, !.code = IF Side = "server" THEN 1000 ELSE @], t, "CLOSING")
     [] m = "ping" ->
          IF AutoPing
-         THEN IF st.tclosing THEN Finish(st, t, "ConnErr")     \* pong(): ClientConnectionResetError
+         THEN IF st.tclosing \/ st.wclosing THEN Finish(st, t, "ConnErr")     \* pong(): ClientConnectionResetError
+                                                   \* (_write_websocket_frame refuses every frame after our Close frame)
               ELSE [st EXCEPT !.wire = Append(@, "pong"), !.pc[t] = "r.top"]
          ELSE RRet(st, t, "PING")
     [] OTHER ->   \* pong
@@ -287,6 +289,29 @@ STop(st, t) ==
   IF st.wclosing \/ st.tclosing THEN Finish(st, t, "ConnErr")
   ELSE Finish([st EXCEPT !.wire = Append(@, "data")], t, "OK")
 
+(* ------------------------------------------------------------ send_bytes(large), permessage-deflate *)
+\* Task "B" (only in sessions negotiated with compression): a message larger than 16 KiB.  send_frame():
+\* the eager, shielded task _send_compressed_frame_async_locked takes the send lock and hands the
+\* compression to the executor ("exec"); its continuation ("stask") writes the frame - _write_websocket_frame
+\* refuses it once our Close frame is out; the task's done-callbacks are "bgdone" (_background_tasks.discard)
+\* and "shield" (asyncio.shield's _inner_done_callback, which completes the outer future B awaits);
+\* "odone" is shield's _outer_done_callback.
+BTop(st, t) ==
+  IF st.wclosing THEN Finish(st, t, "ConnErr")
+  ELSE [st EXCEPT !.ready = Append(@, "exec"), !.bcb = TRUE, !.wk[t] = "none", !.pc[t] = "b.wait", !.cpu = "none"]
+
+STask(st) ==
+  LET err == st.wclosing \/ st.tclosing
+      s1 == [st EXCEPT !.bdone = TRUE, !.berr = err, !.wire = IF err THEN @ ELSE Append(@, "data"),
+                       !.ready = Append(@, "bgdone")]
+  IN IF s1.bcb THEN [s1 EXCEPT !.ready = Append(@, "shield")] ELSE s1
+
+Shield(st) ==
+  IF st.ocan THEN st
+  ELSE WakeTask([st EXCEPT !.ready = Append(@, "odone")], "B", IF st.berr THEN "conn" ELSE "ok")
+
+ODone(st) == IF st.bdone THEN st ELSE [st EXCEPT !.bcb = FALSE]
+
 (* ------------------------------------------------------------ running a task *)
 Block(st, t) ==
   CASE st.pc[t] = "r.top"  -> RTop(st, t)
@@ -300,6 +325,7 @@ Block(st, t) ==
     [] st.pc[t] = "k.loop" -> KLoop(st, t)
     [] st.pc[t] = "k.got"  -> KGot(st, t)
     [] st.pc[t] = "s.top"  -> STop(st, t)
+    [] st.pc[t] = "b.top"  -> BTop(st, t)
     [] OTHER -> [st EXCEPT !.cpu = "none", !.bug = "bad-pc"]
 
 RECURSIVE Run(_, _)
@@ -315,7 +341,7 @@ Wake(st0, t, o) ==
   IN
   CASE st.pc[t] = "spawned" ->
          IF o = "cancel" THEN [st EXCEPT !.pc[t] = "done", !.cpu = "none"]     \* the coroutine never starts
-         ELSE [st EXCEPT !.pc[t] = CASE t = "R" -> "r.top" [] t \in {"C", "D"} -> CloseEntry [] OTHER -> "s.top"]
+         ELSE [st EXCEPT !.pc[t] = CASE t = "R" -> "r.top" [] t \in {"C", "D"} -> CloseEntry [] t = "B" -> "b.top" [] OTHER -> "s.top"]
     [] st.pc[t] = "r.read" ->
          CASE o = "ok" -> [st EXCEPT !.pc[t] = "r.got"]
            [] o = "cancel" -> RExc(Why(dropW, IF isTmo THEN "timeout" ELSE "cancel"), t, IF isTmo THEN "timeout" ELSE "cancelled")
@@ -333,6 +359,8 @@ Wake(st0, t, o) ==
            [] OTHER -> CFail(st, t)
     [] st.pc[t] = "k.cw" ->
          IF o = "cancel" THEN CloseRaise(Why(st, "cancel"), t) ELSE [st EXCEPT !.pc[t] = "k.2"]
+    [] st.pc[t] = "b.wait" ->
+         Finish(st, t, CASE o = "ok" -> "OK" [] o = "cancel" -> "Cancelled" [] OTHER -> "ConnErr")
     [] st.pc[t] = "k.read" ->
          CASE o = "ok" -> [st EXCEPT !.pc[t] = "k.got"]
            [] o = "cancel" ->
@@ -348,7 +376,9 @@ RunTask(st, t) ==
 
 \* Task.cancel(): cancel the pending awaited future, else set _must_cancel
 DoCancel(st, t) ==
-  IF st.pc[t] \in {"r.read", "c.read", "k.read", "c.cw", "k.cw"} /\ st.wk[t] = "none"
+  IF st.pc[t] = "b.wait" /\ st.wk[t] = "none"       \* the outer shield future is cancelled; the inner task goes on
+  THEN WakeTask([st EXCEPT !.ocan = TRUE, !.ready = Append(@, "odone")], t, "cancel")
+  ELSE IF st.pc[t] \in {"r.read", "c.read", "k.read", "c.cw", "k.cw"} /\ st.wk[t] = "none"
   THEN LET s1 == IF st.pc[t] \in {"c.cw", "k.cw"} THEN [st EXCEPT !.cw = "cancelled"] ELSE st
        IN WakeTask(s1, t, "cancel")
   ELSE [st EXCEPT !.mc[t] = TRUE]
@@ -365,7 +395,7 @@ SendHeartbeat(st) ==
   IF st.needReset THEN st
   ELSE IF st.now < st.hbWhen THEN [st EXCEPT !.timers = @ \cup {[id |-> "hb", at |-> st.hbWhen]}]
   ELSE LET s1 == [CancelPong(st) EXCEPT !.timers = @ \cup {[id |-> "pong", at |-> st.now + (Heartbeat \div 2)]}] IN
-       IF s1.tclosing THEN HandlePP(s1) ELSE [s1 EXCEPT !.wire = Append(@, "ping")]
+       IF s1.tclosing \/ s1.wclosing THEN HandlePP(s1) ELSE [s1 EXCEPT !.wire = Append(@, "ping")]
 
 PongNotReceived(st) ==
   IF Side = "server" /\ st.lost THEN st ELSE HandlePP(st)
@@ -400,11 +430,17 @@ RunEntry(st, e) ==
     [] e \in {"tmoR", "tmoC", "tmoD", "tmoS"} -> OnTimeout(st, TmoTask(e))
     [] e = "hb" -> SendHeartbeat(st)
     [] e = "pong" -> PongNotReceived(st)
+    [] e = "exec" -> [st EXCEPT !.ready = Append(@, "stask")]
+    [] e = "stask" -> STask(st)
+    [] e = "bgdone" -> st
+    [] e = "shield" -> Shield(st)
+    [] e = "odone" -> ODone(st)
     [] OTHER -> FlushReset(st)
 
 (* ------------------------------------------------------------ actions *)
 AtBoundary == Head(s.ready) = Mark
-Entries == Tasks \cup Stimuli \cup {"tmoR", "tmoC", "tmoD", "tmoS", "hb", "pong", "hbflush"}
+Entries == Tasks \cup Stimuli \cup {"tmoR", "tmoC", "tmoD", "tmoS", "hb", "pong", "hbflush",
+                                     "exec", "stask", "bgdone", "shield", "odone"}
 
 \* one loop step: run the head handle (starting a new _run_once iteration if the marker is at the head)
 Step(e) ==
